@@ -453,7 +453,7 @@ def call_lua_sandbox(
                 if m is not None:
                     # named parameter
                     k, arg = m.groups()
-                    if k.isdigit() and int(k) > 0:
+                    if k.isascii() and k.isdigit() and int(k) > 0:
                         # Greek wiktionary uses '0', '00' and '000' as
                         # parameter names...
                         k = int(k)
